@@ -1,7 +1,8 @@
 #!/bin/bash
 # usage: tools/goal.sh theories/C14/Lemmas.v <line>  -- shows goals after the given line (scratch copy, never part of the build)
 f=$1; n=$2
-mkdir -p /verif/.work/goal
-head -n "$n" "/verif/coq/$f" > /verif/.work/goal/G.v
-echo 'Show. ' >> /verif/.work/goal/G.v
-cd /verif/coq && timeout 120 coqc -Q theories FV -w none /verif/.work/goal/G.v 2>&1 | grep -v '^File\|Error: There are pending proofs' | head -${3:-60}
+mkdir -p /verif/.work/goal-$$
+head -n "$n" "/verif/coq/$f" > /verif/.work/goal-$$/G.v
+echo 'Show. ' >> /verif/.work/goal-$$/G.v
+trap "rm -rf /verif/.work/goal-$$" EXIT
+cd /verif/coq && timeout 120 coqc -Q theories FV -w none /verif/.work/goal-$$/G.v 2>&1 | grep -v '^File\|Error: There are pending proofs' | head -${3:-60}
